@@ -256,7 +256,7 @@ fn miri_tier(ck: &mut Check, n: usize) {
         None
     };
     let samples = hs.iter().take(1).map(|h| serde_json::to_value(h).unwrap()).collect();
-    ck.external("history", ran, ran.min(hs.len() as u64), labels, samples, viol, Some(serde_json::json!({"engine": "cargo +nightly miri run (same interpreter dv::vm::run)", "histories": n})));
+    ck.external("history@miri", ran, ran.min(hs.len() as u64), labels, samples, viol, Some(serde_json::json!({"engine": "cargo +nightly miri run (same interpreter dv::vm::run)", "histories": n})));
 }
 
 fn fuzz_tier(ck: &mut Check, runs: u64) {
@@ -265,8 +265,8 @@ fn fuzz_tier(ck: &mut Check, runs: u64) {
     let _ = std::fs::remove_dir_all(corpus);
     let _ = std::fs::create_dir_all(corpus);
     let mut cmd = std::process::Command::new("cargo");
-    cmd.current_dir("/verif/fuzz")
-        .args(["+nightly", "fuzz", "run", "int_vm", corpus, "/verif/fuzz/corpus-seed/int_vm", "--"])
+    cmd.current_dir("/verif/harness")
+        .args(["+nightly", "fuzz", "run", "int_vm", corpus, "/verif/harness/fuzz/corpus-seed/int_vm", "--"])
         .arg(format!("-runs={runs}"))
         .arg(format!("-seed={seed}"))
         .args(["-len_control=0", "-max_len=1200", "-artifact_prefix=/verif/target/c17-fuzz-artifacts/", "-print_final_stats=1"])
@@ -290,7 +290,7 @@ fn fuzz_tier(ck: &mut Check, runs: u64) {
             None => println!("INCONCLUSIVE: fuzz run ended with status {code} but no artifact was found: {}", truncate(&outp, 600)),
         }
     }
-    ck.external("history", execs, execs.min(1), labels, vec![], viol, Some(serde_json::json!({"engine": "cargo-fuzz libFuzzer + AddressSanitizer, target int_vm (dv::vm::decode + run)", "runs_requested": runs, "seed": seed})));
+    ck.external("history@libfuzzer-asan", execs, execs.min(1), labels, vec![], viol, Some(serde_json::json!({"engine": "cargo-fuzz libFuzzer + AddressSanitizer, target int_vm (dv::vm::decode + run)", "runs_requested": runs, "seed": seed})));
 }
 
 fn main() {
@@ -300,9 +300,15 @@ fn main() {
     );
     let th = ck.thorough();
     ck.sub("history", (30_000, 600_000), move || history(if th { 60 } else { 30 }), judge);
+    if !th && !ck.is_replay() && std::env::var("DV_NO_MIRI").is_err() {
+        // a fixed handful of histories under Miri on every change (about a minute, mostly build)
+        miri_tier(&mut ck, 6);
+    }
     if th && !ck.is_replay() {
-        miri_tier(&mut ck, 300);
-        fuzz_tier(&mut ck, 1_000_000);
+        let n = ((300.0 * ck.scale) as usize).max(5);
+        miri_tier(&mut ck, n);
+        let runs = (300_000.0 * ck.scale) as u64;
+        fuzz_tier(&mut ck, runs.max(1000));
     }
     ck.assume("execution monitors only see the histories actually run: absence of undefined behaviour is not established");
     ck.assume("the guarding allocator detects frees with a wrong size / of unknown or freed pointers, writes into the 8 bytes after a block, and leaks; ASan and Miri (thorough tier) detect other invalid accesses");
